@@ -412,6 +412,83 @@ def run_solver(text: str, timeout: float, solver: str = "z3"):
     return "error", out, dt
 
 
+def _cmd(solver, timeout):
+    if solver == "z3":
+        return [Z3, "-in", f"-T:{max(1, int(timeout))}", "pp.decimal=true", "pp.decimal_precision=30"]
+    if solver == "z3-new":
+        return [Z3NEW, "-in", f"-T:{max(1, int(timeout))}", "pp.decimal=true", "pp.decimal_precision=30"]
+    if solver == "cvc5":
+        return [CVC5, "--lang=smt2", f"--tlimit={int(timeout * 1000)}", "--produce-models"]
+    raise ValueError(solver)
+
+
+def _classify(out):
+    first = out.strip().split("\n", 1)[0].strip() if out.strip() else ""
+    if first in ("unsat", "sat", "unknown"):
+        return first
+    if "timeout" in out:
+        return "timeout"
+    return "error"
+
+
+def race(jobs, timeout):
+    """jobs: list of (tag, solver, text). Runs all concurrently; the first sat/unsat
+    answer wins and the others are killed. Returns dict like solve_portfolio."""
+    import tempfile
+
+    t0 = time.time()
+    procs = []
+    for tag, solver, text in jobs:
+        f = tempfile.TemporaryFile(mode="w+")
+        f.write(text)
+        f.seek(0)
+        p = subprocess.Popen(_cmd(solver, timeout), stdin=f, stdout=subprocess.PIPE, stderr=subprocess.STDOUT, text=True)
+        procs.append([tag, p, f, None])
+    log = []
+    winner = None
+    deadline = t0 + timeout + 5
+    pending = len(procs)
+    while pending and winner is None:
+        for rec in procs:
+            tag, p, f, res = rec
+            if res is not None:
+                continue
+            rc = p.poll()
+            if rc is None:
+                continue
+            out = p.stdout.read()
+            v = _classify(out)
+            rec[3] = (v, out)
+            pending -= 1
+            log.append((tag, v, round(time.time() - t0, 3)))
+            if v in ("sat", "unsat") and winner is None:
+                winner = (tag, v, out)
+        if winner is None and pending:
+            if time.time() > deadline:
+                break
+            time.sleep(0.02)
+    for tag, p, f, res in procs:
+        if res is None:
+            try:
+                p.kill()
+                p.wait(timeout=5)
+            except Exception:  # noqa: BLE001
+                pass
+            log.append((tag, "killed" if winner else "timeout", round(time.time() - t0, 3)))
+        try:
+            f.close()
+            p.stdout.close()
+        except Exception:  # noqa: BLE001
+            pass
+    dt = time.time() - t0
+    if winner:
+        return {"verdict": winner[1], "solver": winner[0], "out": winner[2], "seconds": dt, "log": log}
+    verdicts = [r[3][0] for r in procs if r[3] is not None]
+    v = "unknown" if "unknown" in verdicts else "timeout" if (not verdicts or "timeout" in verdicts) else verdicts[0]
+    outs = "\n".join(f"[{r[0]}] {r[3][1][:600]}" for r in procs if r[3] is not None)
+    return {"verdict": v, "solver": None, "out": outs, "seconds": dt, "log": log}
+
+
 def solve_portfolio(text: str, timeout: float, solvers=("z3", "z3-new", "cvc5")):
     """Try solvers in order until one decides. Returns dict."""
     log = []
